@@ -69,7 +69,7 @@ func cmdGen1(specPath, outDir string, client bool) int {
 		gen := filepath.Join(outDir, "gen")
 		os.MkdirAll(work, 0o755)
 		os.MkdirAll(gen, 0o755)
-		oc := inproc.Generate(bs, inproc.Config{Client: client, DoNotEdit: true}, work, gen)
+		oc := inproc.Generate(bs, inproc.Config{Client: client, DoNotEdit: true, CustomTypesIgnore: os.Getenv("VERIF_GEN1_CUSTOM_TYPES_IGNORE") != ""}, work, gen)
 		switch {
 		case oc.Panic != "":
 			out.Panic = oc.Panic
